@@ -121,7 +121,7 @@ class SimFS(object):
         self._tick(f)
         return f
 
-    def sys_write(self, f, b):
+    def sys_write(self, f, b, pos=None):
         n = len(b)
         if self.chunks:
             c = self.chunks[self._chunk_i % len(self.chunks)]
@@ -130,13 +130,49 @@ class SimFS(object):
         if self.step('write', True):
             if self.torn is not None and n > 1:
                 k = max(1, min(n - 1, int(n * self.torn)))
-                f.data += bytes(b[:k])
+                self._put(f, b[:k], pos)
                 self._tick(f)
                 self.torn_fired = True
             raise SimCrash()
-        f.data += bytes(b[:n])
+        self._put(f, b[:n], pos)
         self._tick(f)
         return n
+
+    @staticmethod
+    def _put(f, data, pos):
+        data = bytes(data)
+        if pos is None or pos >= len(f.data):
+            if pos is not None and pos > len(f.data):
+                f.data += b'\0' * (pos - len(f.data))
+            f.data += data
+        else:
+            f.data[pos:pos + len(data)] = data
+
+    def sys_open_fd(self, path, flags, mode=0o666):
+        """os.open(): returns the file record; honours O_CREAT / O_EXCL / O_TRUNC"""
+        writing = bool(flags & (_os.O_WRONLY | _os.O_RDWR))
+        if not writing:
+            return self.sys_open(path, 'r')
+        f = self.files.get(path)
+        mutating = (f is None and bool(flags & _os.O_CREAT)) or (f is not None and bool(flags & _os.O_TRUNC))
+        if self.step('open-w', mutating):
+            raise SimCrash()
+        if _os.path.dirname(path) not in self.dirs:
+            raise FileNotFoundError(errno.ENOENT, 'No such file or directory', path)
+        if f is None:
+            if not (flags & _os.O_CREAT):
+                raise FileNotFoundError(errno.ENOENT, 'No such file or directory', path)
+            f = _File(b'', 0, self.next_ino)
+            self.next_ino += 1
+            self.files[path] = f
+            self._tick(f)
+        else:
+            if (flags & _os.O_CREAT) and (flags & _os.O_EXCL):
+                raise FileExistsError(errno.EEXIST, 'File exists', path)
+            if flags & _os.O_TRUNC:
+                del f.data[:]
+                self._tick(f)
+        return f
 
     def sys_rename(self, a, b):
         if self.step('rename', True):
@@ -213,7 +249,12 @@ class SimRawFile(io.RawIOBase):
         return len(data)
 
     def write(self, b):
-        return self.fs.sys_write(self.f, b)
+        n = self.fs.sys_write(self.f, b, self.pos)
+        self.pos += n
+        return n
+
+    def seekable(self):
+        return False
 
     def close(self):
         if not self.closed:
@@ -339,6 +380,46 @@ class FakeOS(object):
         return _os.fsync(fd)
 
     fdatasync = fsync
+
+    # os.open / os.fdopen / os.close / os.write on virtual paths
+    def open(self, path, flags, mode=0o777, *a, **kw):
+        fs = self._seam.fs
+        if fs is not None and is_virtual(path):
+            f = fs.sys_open_fd(path, flags, mode)
+            self._fds = getattr(self, '_fds', {})
+            fd = 200000 + len(self._fds)
+            pos = len(f.data) if (flags & _os.O_APPEND) else 0
+            self._fds[fd] = [fs, f, pos, 'w' if flags & (_os.O_WRONLY | _os.O_RDWR) else 'r']
+            return fd
+        return _os.open(path, flags, mode, *a, **kw)
+
+    def fdopen(self, fd, mode='r', *a, **kw):
+        ent = getattr(self, '_fds', {}).get(fd)
+        if ent is None:
+            return _os.fdopen(fd, mode, *a, **kw)
+        fs, f, pos, m = ent
+        raw = SimRawFile(fs, f, 'w' if ('w' in mode or 'a' in mode) else 'r')
+        raw.pos = pos
+        if 'b' in mode:
+            return io.BufferedWriter(raw, fs.bufsize) if raw.writable() else io.BufferedReader(raw, fs.bufsize)
+        if raw.writable():
+            return io.TextIOWrapper(io.BufferedWriter(raw, fs.bufsize), encoding='utf-8')
+        return io.TextIOWrapper(io.BufferedReader(raw, fs.bufsize), encoding='utf-8')
+
+    def write(self, fd, data):
+        ent = getattr(self, '_fds', {}).get(fd)
+        if ent is None:
+            return _os.write(fd, data)
+        n = ent[0].sys_write(ent[1], data, ent[2])
+        ent[2] += n
+        return n
+
+    def close(self, fd):
+        ent = getattr(self, '_fds', {}).pop(fd, None) if isinstance(fd, int) else None
+        if ent is None:
+            return _os.close(fd)
+        if not ent[0].crashed and ent[0].step('close', False):
+            raise SimCrash()
 
     def listdir(self, d='.'):
         fs = self._seam.fs
